@@ -71,3 +71,20 @@ Fixpoint same_ignoring_case (s t : string) : bool :=
   | String a s', String b t' => same_letter a b && same_ignoring_case s' t'
   | _, _ => false
   end.
+
+(* The items of the four Rust sources the tables are read from, and the
+   per-file inventories: the strict reader (lib/props/c11shape.py) must report
+   exactly these, each matched completely (Gen.CurveTables.source_shape). *)
+Definition anchored_items : list string := [
+  "bn254::inventory"; "bn254::find_bn254_specific_circuits"; "bn254::visit_statement";
+  "bn254::const#0"; "bn254::const#1";
+  "nonstrict::inventory"; "nonstrict::find_nonstrict_binary_conversion"; "nonstrict::visit_statement";
+  "lessthan::inventory"; "lessthan::find_unconstrained_less_than"; "lessthan::update_components";
+  "lessthan::update_inputs"; "lessthan::VariableAccess"; "lessthan::VariableAccess::new";
+  "lessthan::Component"; "lessthan::Component::less_than"; "lessthan::Component::num_2_bits";
+  "lessthan::ComponentInput"; "lessthan::ComponentInput::less_than"; "lessthan::ComponentInput::num_2_bits";
+  "lessthan::ConstraintData";
+  "constants::inventory"; "constants::Curve"; "constants::Curve::prime"; "constants::Curve::from_str";
+  "constants::UsefulConstants"; "constants::UsefulConstants::new"; "constants::UsefulConstants::curve";
+  "constants::UsefulConstants::prime"; "constants::UsefulConstants::prime_size"
+]%string.
